@@ -5,6 +5,9 @@ from .. import observe, pools
 
 
 class RoundTrip(Oracle):
+    # reach probes that must not be stuck at zero (else the workload is not reaching what
+    # the design says it reaches): the check then exits 2
+    required_probes = {"quick": ['with_bundles', 'perturbed_between_write_and_read'], "thorough": ['with_bundles', 'perturbed_between_write_and_read']}
     """Shared by C01 / C02 / C07: judge export->import pairs on states reached by histories."""
 
     prop = None
